@@ -232,3 +232,40 @@ Example C02_calc2_ex_live :
   (nr (KLeaf 1) C02_calc2_ex (r_st rs), nd (KLeaf 1) C02_calc2_ex (r_st rs)) = (0, 0)%nat /\
   (nr (KSched 1) C02_calc2_ex (r_st rs), nd (KSched 1) C02_calc2_ex (r_st rs)) = (0, 0)%nat.
 Proof. vm_compute. repeat split. Qed.
+
+(* ---- [stage 4] a value whose copy throws (script completion OValT): the theorems above quantify over all
+   scripts, hence over throwing completions and the re-delivery path (leafev runs the child a second time,
+   from the same state, with OValK).  A concrete run:
+   when_all(into_variant(stop_when(leaf 1, leafN 2)), let_value(leaf 3, sequence(leaf 4, schedule(ctx 1))))
+   - leaf 1 completes with a throwing value: stop_when's result_ emplace throws out of set_value, the leaf
+     completes with set_error(77) instead; stop_when stops leafN 2, when_all stops leaf 3 (which only logs);
+   - leaf 3 completes with a throwing value: let_value's store throws inside its try -> error;
+   nothing is leaked: every started operation state is destroyed exactly once, after the root completed ---- *)
+
+Definition C02_calc2_ex_t : sexpr :=
+  Bin BWhenAll (Un UIntoVar (Bin BStopWhen (Leaf 1) (LeafN 2)))
+               (Bin BLetV (Leaf 3) (Bin BSeq (Leaf 4) (Sched 10 1))).
+
+Example C02_calc2_ex_throw_trace :
+  r_tr (exec C02_calc2_ex_t false [EvLeaf 1%nat (OValT 5) 0%nat; EvLeaf 3%nat (OValT 6) 0%nat]) =
+  [XT (TLeafStart 1 false true 0 0 0 0); XT (TLeafStart 2 false true 0 0 0 0);
+   XT (TLeafStart 3 false true 0 0 0 0); XT (TLeafStop 2); XT (TLeafStop 3);
+   XRoot (OErr 77) 0 0; XRootDtor; XT (TLeafDtor 2); XT (TLeafDtor 1); XT (TLeafDtor 3)].
+Proof. vm_compute. reflexivity. Qed.
+
+Example C02_calc2_ex_throw_trace2 :
+  r_tr (exec C02_calc2_ex_t false [EvLeaf 3%nat (OVal 6) 0%nat; EvLeaf 4%nat (OValT 6) 0%nat; EvRun 1%nat;
+                                   EvLeaf 1%nat (OValT 5) 2%nat]) =
+  [XT (TLeafStart 1 false true 0 0 0 0); XT (TLeafStart 2 false true 0 0 0 0);
+   XT (TLeafStart 3 false true 0 0 0 0); XT (TLeafDtor 3); XT (TLeafStart 4 false true 0 0 0 0);
+   XT (TLeafDtor 4); XT (TSchedStart 10 1); XT (TLeafStop 2); XRoot (OErr 77) 0 2; XRootDtor;
+   XT (TLeafDtor 2); XT (TLeafDtor 1); XT (TSchedDtor 1)].
+Proof. vm_compute. reflexivity. Qed.
+
+Example C02_calc2_ex_throw_counts :
+  let tr := tevs (r_tr (exec C02_calc2_ex_t false [EvLeaf 1%nat (OValT 5) 0%nat; EvLeaf 3%nat (OValT 6) 0%nat])) in
+  (cnt (KLeaf 1) AStart tr, cnt (KLeaf 1) ADtor tr) = (1, 1)%nat /\
+  (cnt (KLeaf 2) AStart tr, cnt (KLeaf 2) ADtor tr) = (1, 1)%nat /\
+  (cnt (KLeaf 3) AStart tr, cnt (KLeaf 3) ADtor tr) = (1, 1)%nat /\
+  (cnt (KLeaf 4) AStart tr, cnt (KLeaf 4) ADtor tr) = (0, 0)%nat.
+Proof. vm_compute. repeat split. Qed.
